@@ -236,7 +236,6 @@ fn build_partial_eq_expr(
     wcb: &mut WhereClauseBuilder,
 ) -> Result<TokenStream> {
     let op = CompareOp::PartialEq;
-    let ty = &field.field.ty;
     let fn_ident = field.make_ident("__eq_");
     let this = source.self_of(field);
     let other = source.other_of(field);
@@ -246,7 +245,7 @@ fn build_partial_eq_expr(
     let build_expr_by_eq = |by: &Expr| {
         quote! {
             {
-                fn #fn_ident(this: &#ty, other: &#ty, eq: impl ::core::ops::Fn(&#ty, &#ty) -> bool) -> bool {
+                fn #fn_ident<__T: ?::core::marker::Sized>(this: &__T, other: &__T, eq: impl ::core::ops::Fn(&__T, &__T) -> bool) -> bool {
                     eq(this, other)
                 }
                 #fn_ident(&#this, &#other, #by)
@@ -273,7 +272,7 @@ fn build_partial_eq_expr(
     if let Some(by) = &cmp.partial_ord.by {
         return Ok(quote! {
             {
-                fn #fn_ident(this: &#ty, other: &#ty, partial_cmp: impl ::core::ops::Fn(&#ty, &#ty) -> ::core::option::Option<::core::cmp::Ordering>) -> bool {
+                fn #fn_ident<__T: ?::core::marker::Sized>(this: &__T, other: &__T, partial_cmp: impl ::core::ops::Fn(&__T, &__T) -> ::core::option::Option<::core::cmp::Ordering>) -> bool {
                     partial_cmp(this, other) == ::core::option::Option::Some(::core::cmp::Ordering::Equal)
                 }
                 #fn_ident(&#this, &#other, #by)
@@ -288,7 +287,7 @@ fn build_partial_eq_expr(
     if let Some(by) = &field.hattrs.cmp.ord.by {
         return Ok(quote! {
             {
-                fn #fn_ident(this: &#ty, other: &#ty, cmp: impl ::core::ops::Fn(&#ty, &#ty) -> ::core::cmp::Ordering) -> bool {
+                fn #fn_ident<__T: ?::core::marker::Sized>(this: &__T, other: &__T, cmp: impl ::core::ops::Fn(&__T, &__T) -> ::core::cmp::Ordering) -> bool {
                     cmp(this, other) == ::core::cmp::Ordering::Equal
                 }
                 #fn_ident(&#this, &#other, #by)
@@ -501,7 +500,6 @@ fn build_partial_ord_expr(
     wcb: &mut WhereClauseBuilder,
 ) -> Result<TokenStream> {
     let op = CompareOp::PartialOrd;
-    let ty = &field.field.ty;
     let fn_ident = field.make_ident("__partial_ord_");
     let this = source.self_of(field);
     let other = source.other_of(field);
@@ -511,10 +509,10 @@ fn build_partial_ord_expr(
     if let Some(by) = &cmp.partial_ord.by {
         return Ok(quote! {
             {
-                fn #fn_ident(
-                    this: &#ty,
-                    other: &#ty,
-                    partial_cmp: impl ::core::ops::Fn(&#ty, &#ty) -> ::core::option::Option<::core::cmp::Ordering>)
+                fn #fn_ident<__T: ?::core::marker::Sized>(
+                    this: &__T,
+                    other: &__T,
+                    partial_cmp: impl ::core::ops::Fn(&__T, &__T) -> ::core::option::Option<::core::cmp::Ordering>)
                  -> ::core::option::Option<::core::cmp::Ordering> {
                     partial_cmp(this, other)
                 }
@@ -530,10 +528,10 @@ fn build_partial_ord_expr(
     if let Some(by) = &cmp.ord.by {
         return Ok(quote! {
             {
-                fn #fn_ident(
-                    this: &#ty,
-                    other: &#ty,
-                    cmp: impl ::core::ops::Fn(&#ty, &#ty) -> ::core::cmp::Ordering)
+                fn #fn_ident<__T: ?::core::marker::Sized>(
+                    this: &__T,
+                    other: &__T,
+                    cmp: impl ::core::ops::Fn(&__T, &__T) -> ::core::cmp::Ordering)
                  -> ::core::option::Option<::core::cmp::Ordering> {
                     ::core::option::Option::Some(cmp(this, other))
                 }
@@ -641,7 +639,6 @@ fn build_ord_expr(
     wcb: &mut WhereClauseBuilder,
 ) -> Result<TokenStream> {
     let op = CompareOp::Ord;
-    let ty = &field.field.ty;
     let fn_ident = field.make_ident("__ord_");
     let this = source.self_of(field);
     let other = source.other_of(field);
@@ -651,10 +648,10 @@ fn build_ord_expr(
     if let Some(by) = &cmp.ord.by {
         return Ok(quote! {
             {
-                fn #fn_ident(
-                    this: &#ty,
-                    other: &#ty,
-                    cmp: impl ::core::ops::Fn(&#ty, &#ty) -> ::core::cmp::Ordering)
+                fn #fn_ident<__T: ?::core::marker::Sized>(
+                    this: &__T,
+                    other: &__T,
+                    cmp: impl ::core::ops::Fn(&__T, &__T) -> ::core::cmp::Ordering)
                  -> ::core::cmp::Ordering {
                     cmp(this, other)
                 }
@@ -741,7 +738,6 @@ fn build_hash_expr(
     wcb: &mut WhereClauseBuilder,
 ) -> Result<TokenStream> {
     let op = CompareOp::Hash;
-    let ty = &field.field.ty;
     let fn_ident = field.make_ident("__hash_");
     let this = source.self_of(field);
     let cmp = &field.hattrs.cmp;
@@ -750,10 +746,10 @@ fn build_hash_expr(
     if let Some(by) = &cmp.hash.by {
         return Ok(quote! {
             {
-                fn #fn_ident<__H: ::core::hash::Hasher>(
-                    this: &#ty,
+                fn #fn_ident<__T: ?::core::marker::Sized, __H: ::core::hash::Hasher>(
+                    this: &__T,
                     state: &mut __H,
-                    hash: impl ::core::ops::Fn(&#ty, &mut __H)) {
+                    hash: impl ::core::ops::Fn(&__T, &mut __H)) {
                     hash(this, state)
                 }
                 #fn_ident(&#this, state, #by)
